@@ -48,3 +48,8 @@ VARIANTS += [
     M('C09', 'refactor-counter-in-dict-loop', E(BS, "            for kind, value in c.items():\n                constraint_constructor = FIELD_CONSTRAINTS_MAP.get(kind)\n",
                                                 "            n_seen = 0\n            for kind, value in c.items():\n                n_seen += 1\n                constraint_constructor = FIELD_CONSTRAINTS_MAP.get(kind)\n"), kind='refactor'),
 ]
+
+VARIANTS += [
+    M('C09', 'parsed-tdda-files-cached-by-mtime', [E(BS, "class Marks:", "TDDA_FILE_CACHE = {}\n\n\ndef read_tdda_file(path):\n    key = os.path.abspath(path)\n    mtime = os.path.getmtime(path)\n    hit = TDDA_FILE_CACHE.get(key)\n    if hit is not None and hit[0] == mtime:\n        return hit[1]\n    with open(path) as f:\n        obj = json.loads(f.read(), object_pairs_hook=OrderedDict)\n    TDDA_FILE_CACHE[key] = (mtime, obj)\n    return obj\n\n\nclass Marks:")],
+      rule='C09-NOCACHE', key='TDDA_FILE_CACHE'),
+]
